@@ -463,7 +463,7 @@ Proof.
             Irel (relayclient sf) /\ comstate sf = helo_state (esmtp sf)
             /\ Rc (comstate sf) (mailfrom sf) (rcpts sf) (rcptcount sf) (goodrcpt sf) ab).
   { exact (Hfree r'). }
-  destruct de as [msg sz|l|l|big l| |].
+  destruct de as [msg sz seen|l seen|l seen|big l| |].
   - (* end of data *)
     destruct Hfree1 as (HIf & Hcf & HRf).
     assert (Hho : trace_step o (Handoff (envelope (mailfrom (set_rd sq r')) (rcpts (set_rd sq r'))) msg) a = Some a).
